@@ -4,7 +4,7 @@
    beneath each.  The lexical leaves (string quoting, float and time texts) are a parameter [L : leaf];
    the round-trip statements assume [leaf_laws L] (JsonRT.v), which is property C09's subject. *)
 From Coq Require Import List NArith ZArith Bool Lia.
-From Verif Require Import Base.Outcome Wire.Item Gen.Consts Wire.Json Wire.JsonProofs Wire.JsonRT Wire.JsonDepth Wire.JsonTotal.
+From Verif Require Import Base.Outcome Wire.Item Gen.Consts Wire.Json Wire.JsonProofs Wire.JsonRT Wire.JsonDepth Wire.JsonTotal Wire.JsonSkip.
 Import ListNotations.
 Open Scope N_scope.
 
@@ -51,6 +51,29 @@ Theorem W_json_seq : forall (L : leaf), leaf_laws L ->
     = Ok (map (fun vr => (fst vr, total - snd vr)) (seq_expect L o D docs rest)).
 Proof. exact seq_lemma. Qed.
 Print Assumptions W_json_seq.
+
+
+(* C11 at the wire level: the second parser (nextValueBytes: swallow of unknown fields, codec.Raw,
+   json.Unmarshaler) run on an encoding -- from any tokenizer state that presents it, followed by anything a
+   bare number may be followed by -- hands back exactly the bytes of the encoding and leaves the tokenizer in
+   the SAME state as Decode(&interface{}) does (W_json_dec_enc): decode, skip and raw agree on extents,
+   the one-byte look-ahead after a bare number included (since repair FWjson-1 that byte is no longer part of
+   the bytes handed back). *)
+Theorem W_json_skip_enc : forall (L : leaf), leaf_laws L ->
+  forall (o : eopts) (D : dopts) (key : bool) (lvl : N) (i : item) (s : st) (tl : list N),
+  jwf L o D key i -> advance s = advance (mkst 0 (enc_at L o key lvl i ++ tl)) ->
+  delim_ok (isnum L o key i) tl ->
+  nvb s = Ok (enc_at L o key lvl i, after (isnum L o key i) tl).
+Proof. exact nvb_enc_lemma. Qed.
+Print Assumptions W_json_skip_enc.
+
+Theorem W_json_skip_raw_enc : forall (L : leaf), leaf_laws L ->
+  forall (o : eopts) (D : dopts) (i : item) (rest : list N),
+  jwf L o D false i -> (termWs o = true \/ delim_ok (isnum L o false i) rest) ->
+  raw (enc_top L o i ++ rest) = Ok (enc L o ctx0 i, inp (after (isnum L o false i) (term o ++ rest))) /\
+  skip 0 (enc_top L o i ++ rest) = Ok (inp (after (isnum L o false i) (term o ++ rest))).
+Proof. exact skip_enc_top_lemma. Qed.
+Print Assumptions W_json_skip_raw_enc.
 
 (* C02 at the wire level, skip side: nextValueBytes is a loop over the input bytes (the model's
    scanner is structurally recursive on the input): for EVERY byte list it ends, with a value or an error. *)
@@ -121,13 +144,15 @@ Example W_json_dec_enc_nonvacuous :
      10; 32; 32; 34; 116; 114; 117; 101; 34; 58; 32; 34; 65; 81; 73; 68; 66; 65; 61; 61; 34; 44; 10; 32; 32; 34; 116; 34; 58; 32;
      34; 49; 57; 55; 48; 45; 48; 49; 45; 48; 49; 84; 48; 48; 58; 48; 48; 58; 48; 49; 46; 48; 48; 48; 48; 48; 48; 48; 48; 53; 90; 34; 10; 125; 32] /\
   dec_naked exL D 400 (enc_top exL o exI ++ [49]) = Ok (norm exL o D false exI, [32; 49]) /\
+  raw (enc_top exL o exI ++ [49]) = Ok (enc exL o ctx0 exI, [32; 49]) /\
   norm exL o D false exI =
     IMap [(IStr [97], IArr [IInt (-3); IUint 5; IF64 4609434218613702656; INil; IBool true; IStr [34; 60; 239; 191; 189]]);
           (IUint 7, IMap []); (IBool true, IStr [65; 81; 73; 68; 66; 65; 61; 61]);
           (IStr [116], IStr [49; 57; 55; 48; 45; 48; 49; 45; 48; 49; 84; 48; 48; 58; 48; 48; 58; 48; 49; 46; 48; 48; 48; 48; 48; 48; 48; 48; 53; 90])].
 Proof.
-  cbv zeta. split; [|split; [|split]].
+  cbv zeta. split; [|split; [|split; [|split]]].
   - vm_compute. intuition (try discriminate; try reflexivity; try lia).
+  - vm_compute. reflexivity.
   - vm_compute. reflexivity.
   - vm_compute. reflexivity.
   - vm_compute. reflexivity.
